@@ -8,7 +8,7 @@ EXPLANATION = ('Spans are right if preprocessing preserves length and every unit
                'symbolic match/result intervals obeying the regex contract.')
 ASSUMPTIONS = ['regex finditer contract for the stubbed match intervals', 'percentage patterns never start/end strictly inside a number token',
                'bounded source length and match count per obligation']
-OUTSIDE = ['which intervals the real patterns produce on a sentence', 'NumberWithUnitExtractor prefix/suffix arithmetic, phone prefix re-spanning, '
+OUTSIDE = ['which intervals the real patterns produce on a sentence', 'phone prefix re-spanning, '
            'merged date-time modifier strip/restore (not built)', 'CJK-specific extractors', 'strings longer than 2 characters for the symbolic preprocess check']
 S = 'harness.spans:'
 MODELS = ['number', 'unit', 'sequence', 'phone', 'datetime', 'choice']
@@ -34,6 +34,10 @@ def obligations(tier):
            descr='BasePercentageExtractor: masking numbers and mapping the match back gives the original-coordinate span and its text',
            bounds='source of 7 chars with 1 inner number, 4 chars with 2 (thorough: 9 / 6), one percentage match at symbolic masked positions',
            encodes=['recognizers_number.number.extractors:BasePercentageExtractor.extract']),
+        Ob('O1.4-unit-extract', 'sx', S + 'h_unit_extract', twin=S + 't_unit_extract', slices=[{'usrc': 'ab cd ef'}] + ([{'usrc': 'ab  cd ef gh'}] if tier == 'thorough' else []), timeout=t,
+           descr='NumberWithUnitExtractor.extract prefix/suffix offset arithmetic: entity in range, text = slice, contains its number, number position recorded relative to the entity',
+           bounds='one number, <=1 prefix-unit and <=1 suffix-unit match at symbolic positions in a source of 8 chars (thorough 12)',
+           encodes=['recognizers_number_with_unit.number_with_unit.extractors:NumberWithUnitExtractor.extract']),
         Ob('O1.6-merge_all_tokens', 'sx', S + 'h_merge_all_tokens', slices=[{'src': 'abcdef', 'nt': 2}, {'src': 'abcde', 'nt': 3}], timeout=t,
            descr='merge_all_tokens: result spans/text are those of a token', encodes=['recognizers_date_time.date_time.utilities:merge_all_tokens']),
         Ob('O1.8-model-assemble', 'sx', S + 'h_model_assemble', slices=[{'src': 'abcdefgh', 'model': m} for m in MODELS], timeout=t,
